@@ -85,36 +85,8 @@ func runC03(c *Check) {
 	if m == nil {
 		return
 	}
+	c03Guarded(c, P+".O1", m)
 	la := NewLockAn(c.P, "message")
-	mu := la.canon(fieldID(m.Mutex))
-
-	// O1 lockset + O2 who-may-write
-	exemptRead := map[*ssa.Function]bool{m.Acked: true, m.Nacked: true}
-	writers := map[*ssa.Function]bool{m.NewMessage: true, m.Ack: true, m.Nack: true}
-	nacc := 0
-	for _, f := range []*types.Var{m.State, m.AckCh, m.NackCh} {
-		for _, a := range la.Accesses(f) {
-			fn := a.Ins.Parent()
-			k := fmt.Sprintf("%s of %s", a.What, roleOf(m, f))
-			if fn == m.NewMessage {
-				c.Report(true, P+".O1", "GUARDED-BY/constructor", fn, a.Ins.Pos(), k, "constructor: the object is not shared yet")
-				continue
-			}
-			nacc++
-			if a.Write {
-				c.Report(writers[fn], P+".O2", "WHO-MAY-WRITE", fn, a.Ins.Pos(), k, "settlement fields are written only by NewMessage, Ack and Nack")
-			}
-			if !a.Write && exemptRead[fn] {
-				c.Report(true, P+".O1", "GUARDED-BY/accessor", fn, a.Ins.Pos(), k, "accessor read of a field that is assigned at most once for constructor-built messages (documented exception)")
-				continue
-			}
-			held := la.Held(a.Ins)
-			_, ok := held[mu]
-			c.Report(ok && held[mu] == 'W', P+".O1", "GUARDED-BY", fn, a.Ins.Pos(), k, "the access happens with the message's mutex held", "held: "+held.String())
-		}
-	}
-	c.Floor(P+".O1", "accesses to the settlement fields outside the constructor", nacc, 8)
-	// composite literals elsewhere that set these fields would be stores too (covered by Accesses)
 
 	// the pre-closed channel
 	var closedGlobal *ssa.Global
@@ -487,3 +459,55 @@ func stName(s, A, N int64) string {
 }
 
 func chName(i int) string { return [...]string{"nil", "open", "closed"}[i] }
+
+// c03Guarded: lockset + who-may-write for the settlement fields (shared with C02.O8).
+func c03Guarded(c *Check, id string, m *msgFields) {
+	P := id
+	_ = P
+	la := NewLockAn(c.P, "message")
+	mu := la.canon(fieldID(m.Mutex))
+
+	// O1 lockset + O2 who-may-write
+	exemptRead := map[*ssa.Function]bool{m.Acked: true, m.Nacked: true}
+	writers := map[*ssa.Function]bool{m.NewMessage: true, m.Ack: true, m.Nack: true}
+	nacc := 0
+	for _, f := range []*types.Var{m.State, m.AckCh, m.NackCh} {
+		for _, a := range la.Accesses(f) {
+			fn := a.Ins.Parent()
+			k := fmt.Sprintf("%s of %s", a.What, roleOf(m, f))
+			if fn == m.NewMessage {
+				c.Report(true, id, "GUARDED-BY/constructor", fn, a.Ins.Pos(), k, "constructor: the object is not shared yet")
+				continue
+			}
+			nacc++
+			if a.Write {
+				c.Report(writers[fn], id, "WHO-MAY-WRITE", fn, a.Ins.Pos(), k, "settlement fields are written only by NewMessage, Ack and Nack")
+			}
+			if !a.Write && exemptRead[fn] {
+				c.Report(true, id, "GUARDED-BY/accessor", fn, a.Ins.Pos(), k, "accessor read of a field that is assigned at most once for constructor-built messages (documented exception)")
+				continue
+			}
+			held := la.Held(a.Ins)
+			_, ok := held[mu]
+			c.Report(ok && held[mu] == 'W', id, "GUARDED-BY", fn, a.Ins.Pos(), k, "the access happens with the message's mutex held", "held: "+held.String())
+		}
+	}
+	c.Floor(id, "accesses to the settlement fields outside the constructor", nacc, 8)
+	// composite literals elsewhere that set these fields would be stores too (covered by Accesses)
+
+}
+
+// c03ClosedGlobal finds the pre-closed channel substituted for a nil ack channel.
+func c03ClosedGlobal(m *msgFields) *ssa.Global {
+	var g0 *ssa.Global
+	for _, fn := range []*ssa.Function{m.Ack, m.Nack} {
+		for _, st := range FieldStores(fn, m.AckCh) {
+			if u, ok := st.Val.(*ssa.UnOp); ok {
+				if g, ok := u.X.(*ssa.Global); ok {
+					g0 = g
+				}
+			}
+		}
+	}
+	return g0
+}
